@@ -93,6 +93,9 @@ static void op_tisapprox(Ctx& c) {
   HEAD("tisapprox") o.vec("t", a.coeffs()); o.vec("s", b.coeffs()); o.vec("small", small.coeffs()); o.sc("eps", (S)eps);
   o.num("aa", a.isApprox(a, (S)eps) ? 1 : 0); o.num("ab", a.isApprox(b, (S)eps) ? 1 : 0); o.num("ba", b.isApprox(a, (S)eps) ? 1 : 0);
   o.num("zs", z.isApprox(small, (S)eps) ? 1 : 0); o.num("sz", small.isApprox(z, (S)eps) ? 1 : 0); o.num("eq", (a == a) ? 1 : 0);
+  // a pair whose norms straddle eps (one argument in the absolute regime, the other not) at distance 0.1 eps
+  T p = T::Zero(), q = T::Zero(); int kk = c.r.i(0, T::DoF - 1); p.coeffs()(kk) = (S)(0.95 * eps); q.coeffs()(kk) = (S)(1.05 * eps);
+  o.vec("p", p.coeffs()); o.vec("q", q.coeffs()); o.num("pq", p.isApprox(q, (S)eps) ? 1 : 0); o.num("qp", q.isApprox(p, (S)eps) ? 1 : 0);
   o.end();
 }
 
